@@ -120,54 +120,130 @@ def run(ctx, facts):
     vs = [v for v in validated_regions(rn) if bin_lock_region(v.region)]
     if len(vs) < 2:
         ctx.fail_closed("N2: expected two validated bin-lock regions in %s, found %d" % (strip_generics(rn.id), len(vs)))
+    def stored_in_region(b, l, v):
+        """local l derives from a Node.value load made inside the validated region v"""
+        if l is None:
+            return False
+        for rc in flow(b).call_roots(l):
+            if rc is not None and is_reclaim_atomic(rc) == "load" and ("node::Node", "value") in receiver_field(b, rc, 0) \
+                    and rc.point in v.region.points and v.dominated_by_validation(rc.point):
+                return True
+        return False
+
+    def bool_fn_permits(h, ko, ks):
+        """summary of a crate function returning bool, called with (observed, stored) as parameters ko, ks: it returns true only when the
+        observation is None or is pointer-identical to the stored value.  -> (ok, true_on_none)"""
+        hf = flow(h)
+        obs_l = hf.flows_to(ko)
+        none_edges, eq_calls = [], []
+        for blk in range(len(h.blocks)):
+            cd = cond_of(h, blk)
+            if cd and cd["kind"] == "is_none" and cd.get("arg") in obs_l:
+                none_edges.append((blk, cd["true"]))
+        ok, true_on_none = True, False
+        defs = [d for d in h.defs.get(0, []) if d[1] in ("assign", "call")]
+        if not defs:
+            return False, False
+        for pt, kind, data in defs:
+            if kind == "call":
+                c = data
+                if is_ptr_cmp(c) == "eq":
+                    from .analysis import ref_target
+                    x, y = ref_target(h, c.args[0]), ref_target(h, c.args[1])
+                    if (x in obs_l and hf.derives_from_arg(y, ks)) or (y in obs_l and hf.derives_from_arg(x, ks)):
+                        continue
+                ok = False
+            else:
+                rv = data["rv"]
+                val = rv["use"].get("int") if "use" in rv else None
+                if val == 0:
+                    continue
+                if val == 1:
+                    if none_edges and dominated_by_edge(h, pt, none_edges):
+                        true_on_none = True
+                        continue
+                    ok = False
+                    continue
+                # copy of a comparison result
+                src = op_root(rv["use"]) if "use" in rv else None
+                rcs = [x for x in hf.call_roots(src) if x is not None] if src is not None else []
+                if rcs and all(is_ptr_cmp(x) == "eq" for x in rcs):
+                    continue
+                ok = False
+        return ok, true_on_none
+
     for v in vs:
         r = v.region
-        found = None
+        what = "removal in region %s" % r.call.span.split(":", 1)[1]
+        obs_l = fl.flows_to(OBS)
+        permits = []      # (edge, description, permits None?)
+        problems = []
         for blk in sorted({p[0] for p in r.points}):
             cd = cond_of(rn, blk)
-            if not cd or cd["kind"] != "call":
+            if not cd:
                 continue
-            uc = cd["call"]
-            if not callee_str(uc).endswith("Option::unwrap_or"):
-                continue
-            dflt = uc.args[1].get("int")
-            mroots = fl.call_roots(op_root(uc.args[0]))
-            for mc in mroots:
-                if mc is None or not callee_str(mc).endswith("Option::map"):
-                    continue
-                obs_from_param = fl.derives_from_arg(op_root(mc.args[0]), OBS)
-                cl = op_root(mc.args[1])
-                ch = rn.ty(cl)["head"] if cl is not None else ""
-                cb = facts.by_id.get(ch[len("closure:"):]) if ch.startswith("closure:") else None
-                ptr_eq = cb is not None and any(is_ptr_cmp(x) == "eq" for x in cb.calls) and len([x for x in cb.calls]) == 1
-                # captured value: loaded from Node.value in this region
-                cap_ok = False
-                for kind, data, pt in fl.sources(cl):
-                    if kind == "agg":
-                        for o in data["rv"]["ops"]:
-                            for rc in fl.call_roots(op_root(o)):
-                                if rc is not None and is_reclaim_atomic(rc) == "load" and ("node::Node", "value") in receiver_field(rn, rc, 0) \
-                                        and rc.point in r.points and v.dominated_by_validation(rc.point):
-                                    cap_ok = True
-                found = dict(blk=blk, cd=cd, dflt=dflt, obs=obs_from_param, ptr_eq=ptr_eq, cap=cap_ok, span=rn.term(blk)["span"])
-        what = "removal in region %s" % r.call.span.split(":", 1)[1]
-        if not found:
-            ctx.inst("N2", rn, what, r.call.span, False, "no `observed_value.map(|ov| ov == stored).unwrap_or(true)` test in this lock region")
+            if cd["kind"] == "is_none" and cd.get("arg") in obs_l:
+                permits.append(((blk, cd["true"]), "observation is None", True))
+            elif cd["kind"] == "ptr_eq":
+                a, b2 = cd.get("a"), cd.get("b")
+                if (a in obs_l and stored_in_region(rn, b2, v)) or (b2 in obs_l and stored_in_region(rn, a, v)):
+                    permits.append(((blk, cd["true"]), "observed pointer == stored pointer", False))
+            elif cd["kind"] == "call":
+                uc = cd["call"]
+                tb = facts.by_id.get(uc.resolved)
+                if callee_str(uc).endswith("Option::unwrap_or"):
+                    # observed_value.map(|ov| ov == stored).unwrap_or(default)
+                    dflt = uc.args[1].get("int")
+                    for mc in fl.call_roots(op_root(uc.args[0])):
+                        if mc is None or not callee_str(mc).endswith("Option::map"):
+                            continue
+                        if not fl.derives_from_arg(op_root(mc.args[0]), OBS):
+                            problems.append("the compared option is not the observed_value parameter")
+                            continue
+                        cl = op_root(mc.args[1])
+                        ch = rn.ty(cl)["head"] if cl is not None else ""
+                        cb = facts.by_id.get(ch[len("closure:"):]) if ch.startswith("closure:") else None
+                        ptr_eq = cb is not None and any(is_ptr_cmp(x) == "eq" for x in cb.calls) and len([x for x in cb.calls]) == 1
+                        cap_ok = False
+                        for kind, data, pt in fl.sources(cl):
+                            if kind == "agg":
+                                for o in data["rv"]["ops"]:
+                                    if stored_in_region(rn, op_root(o), v):
+                                        cap_ok = True
+                        if not ptr_eq:
+                            problems.append("the comparison is not pointer identity of the two Shared values")
+                        elif not cap_ok:
+                            problems.append("the stored value is not loaded inside the validated lock region")
+                        elif dflt not in (0, 1):
+                            problems.append("the default for a missing observation is not a constant")
+                        else:
+                            permits.append(((blk, cd["true"]), "map(|ov| ov == stored).unwrap_or(%s)" % bool(dflt), dflt == 1))
+                elif tb is not None and tb.ty(0)["s"] == "bool":
+                    ko = ks = None
+                    for k, a in enumerate(uc.args):
+                        al = op_root(a)
+                        if al in obs_l and tb.ty(k + 1)["s"].startswith("std::option::Option<reclaim::Shared<"):
+                            ko = k + 1
+                        elif stored_in_region(rn, al, v):
+                            ks = k + 1
+                    if ko and ks:
+                        okf, ton = bool_fn_permits(tb, ko, ks)
+                        if okf:
+                            permits.append(((blk, cd["true"]), "%s(observed, stored)" % strip_generics(tb.id).rsplit("::", 1)[-1], ton))
+                        else:
+                            problems.append("%s can return true although the observation differs from the stored value" % strip_generics(tb.id))
+        if not permits:
+            ctx.inst("N2", rn, what, r.call.span, False,
+                     "; ".join(problems) if problems else "no test `observation is None or observed pointer == stored pointer` in this lock region")
             continue
-        problems = []
-        if not found["obs"]:
-            problems.append("the compared option is not the observed_value parameter")
-        if not found["ptr_eq"]:
-            problems.append("the comparison is not pointer identity of the two Shared values")
-        if not found["cap"]:
-            problems.append("the stored value is not loaded inside the validated lock region")
-        if found["dflt"] != 1:
-            problems.append("a missing observation does not default to `remove`")
+        if not any(p[2] for p in permits):
+            problems.append("a missing observation does not lead to the removal (retain_force would never remove)")
+        edges = [p[0] for p in permits]
         guarded = 0
         for m, d in muts.items():
             if m in r.points and d != "user closure":
                 guarded += 1
-                if not dominated_by_edge(rn, m, [(found["blk"], found["cd"]["true"])]):
+                if not dominated_by_edge(rn, m, edges):
                     problems.append("%s at %s is not guarded by the identity test" % (d, rn.span_at(m)))
-        ctx.inst("N2", rn, what, found["span"], not problems,
-                 "%d mutation(s) in the region, all on the true edge of the pointer-identity test" % guarded if not problems else "; ".join(problems)[:400])
+        ctx.inst("N2", rn, what, rn.term(permits[0][0][0])["span"], not problems,
+                 "%d mutation(s) in the region, all behind: %s" % (guarded, "; ".join(sorted({p[1] for p in permits}))) if not problems else "; ".join(problems)[:400])
